@@ -323,3 +323,76 @@ def include_node_contract(prop, sfx, bound, replay_code):
         c.assume_note("context.extend and context.iterations are executed from their real source; the included template's body is an arbitrary callee")
         c.replay("code", code=replay_code())
     return inc
+
+
+# ---- CallNode.render_to_output*: the macro body renders in an isolated copy whose namespace binds
+# ---- every parameter (its argument's value, or undefined), `args` and `kwargs` (C27), that carries
+# ---- the caller's iteration product (C06), and the caller's context is not written (C15)
+
+CALLNODE = "liquid.extra.tags.macro_tag:CallNode"
+
+
+def call_node_contract(prop, sfx, replay_code):
+    from pyvc.contract import contract
+
+    @contract(CALLNODE + ".render_to_output" + sfx, prop=prop, name=f"CallNode.render_to_output{sfx}")
+    def cn(c):
+        EXP = "liquid.expression:Expression"
+        MT = "liquid.extra.tags.macro_tag"
+        env = mk_env(c, undefined=VClass("liquid.undefined", "Undefined"))
+        body = c.obj("liquid.ast:BlockNode", "macro_body")
+        macro = c.obj(MT + ":Macro", "macro", args=c.dict("parameters"), block=body)
+        macros = c.st.alloc(HDict(items={"m": macro}))
+        caller = mk_ctx(c, env)
+        c.st.deref(c.st.deref(caller).fields["tag_namespace"]).items["macros"] = macros
+        vals = {n: c.any(f"value_{n}") for n in ("bound", "extra_positional", "extra_keyword")}
+        ex = {n: c.obj(EXP, f"expr_{n}", __value__=v, token=NONE) for n, v in vals.items()}
+        bound = c.obj(MT + ":BoundArgs", "bound_args", args=c.st.alloc(HDict(items={"p": ex["bound"], "q": NONE})), excess_args=c.st.alloc(HList(items=[ex["extra_positional"]])),
+                      excess_kwargs=c.st.alloc(HDict(items={"k": ex["extra_keyword"]})))
+        self = c.obj(CALLNODE, "call", name=const("m"), args=c.st.alloc(HList(items=[])), kwargs=c.st.alloc(HList(items=[])), token=NONE)
+        evx = lambda eng, st, a, k: [(st, st.deref(a[0]).fields["__value__"])]  # noqa: E731
+        c.summary(EXP + ".evaluate", evx)
+        c.summary(EXP + ".evaluate_async", evx)
+        c.summary(CALLNODE + ".macro_args", lambda eng, st, a, k: [(st, bound)] if a[1] == macro else [eng.raised(st, "AssertionError", "other macro")])
+        macro_ctx = mk_ctx(c, env, locals=c.dict("macro_locals"), counters=c.dict("macro_counters"))
+
+        def copy(eng, st, a, k):
+            st.log.append(("copy", a[0], dict(k), list(a[1:])))
+            return [(st, macro_ctx)]
+        c.summary(CTX + ".copy", copy)
+
+        def render(eng, st, a, k):
+            st.log.append(("rendered", a[0], a[1]))
+            return [(st, VInt(z3.Int("n_chars")))]
+        c.summary("liquid.ast:BlockNode.render" + sfx, render)
+        c.summary("liquid.ast:Node.render" + sfx, render)
+        caller_addrs = {caller.addr} | {v.addr for v in c.st.deref(caller).fields.values() if isinstance(v, VRef)} | {macros.addr}
+        c.call(caller, c.obj("io:StringIO", "buffer", __text__=c.str("out")), self_val=self)
+
+        def post(r):
+            copies = [e for e in r.st.log if e[0] == "copy"]
+            rs = [e for e in r.st.log if e[0] == "rendered"]
+            if len(copies) != 1 or copies[0][1] != caller or rs != [("rendered", body, macro_ctx)]:
+                return z3.BoolVal(False)
+            kw = copies[0][2]
+            ns = kw.get("namespace") if "namespace" in kw else (copies[0][3][0] if copies[0][3] else None)
+            nh = r.st.deref(ns) if isinstance(ns, VRef) else None
+            if not isinstance(nh, HDict) or nh.present is not None or set(nh.items) != {"args", "kwargs", "p", "q"}:
+                return z3.BoolVal(False)
+            a_items = r.engine.concrete_items(r.st, nh.items["args"])
+            kwh = r.st.deref(nh.items["kwargs"]) if isinstance(nh.items["kwargs"], VRef) else None
+            q = nh.items["q"]
+            q_undef = isinstance(q, VRef) and r.st.deref(q).cls[1] == "Undefined"
+            dt = r.engine.concrete_items(r.st, kw.get("disabled_tags")) if kw.get("disabled_tags") is not None else None
+            ok = (a_items is not None and len(a_items) == 1 and isinstance(kwh, HDict) and set(kwh.items) == {"k"} and q_undef
+                  and concrete(kw.get("carry_loop_iterations", const(False))) == (True, True) and ("block_scope" not in kw or concrete(kw["block_scope"]) == (True, False))
+                  and dt is not None and any(concrete(x) == (True, "include") for x in dt))
+            writes = [e for e in r.st.log if e[0] in ("setitem", "delitem", "setattr") and e[1] in caller_addrs]
+            if not ok or writes:
+                return z3.BoolVal(False)
+            return z3.And(box(nh.items["p"]) == vals["bound"].t, box(a_items[0]) == vals["extra_positional"].t, box(kwh.items["k"]) == vals["extra_keyword"].t)
+        c.ensures("the-macro-body-renders-in-an-isolated-copy-binding-parameters-args-and-kwargs(product-carried,include-disabled,caller-not-written)", post)
+        c.raises("ContextDepthError")
+        c.assume_note("macro_args is summarised by a BoundArgs value of one bound parameter, one unbound parameter, one surplus positional and one surplus keyword argument (its own contract: C27 macro_args[...]); context.copy is summarised (C15/C06 copy contracts)")
+        c.replay("code", code=replay_code())
+    return cn
